@@ -655,7 +655,15 @@ fn exec_call(resizer: &mut fr::Resizer, call: &Call, o: &mut Outcome) -> Result<
 fn whitebox(t: &mut Tape) -> Outcome {
     let big = t.chance(60);
     let in_size = if big { t.range(1, 1 << 20) } else { t.range(1, 300) };
-    let out = if big { t.range(1, 1 << 12) } else { t.range(1, 300) };
+    let out = if big {
+        if t.bool() {
+            t.range(1, 4)
+        } else {
+            t.range(1, 1 << 12)
+        }
+    } else {
+        t.range(1, 300)
+    };
     let hostile = t.chance(60);
     let (l, w) = if hostile {
         (hostile_f64(t, in_size), hostile_f64(t, in_size))
@@ -689,7 +697,7 @@ fn whitebox(t: &mut Tape) -> Outcome {
     };
     let scale = (w / out as f64).max(1.0);
     let window = 2.0 * support * if adaptive { scale } else { 1.0 } + 3.0;
-    if window * out as f64 > 6.0e6 {
+    if window * out as f64 > 2.0e7 {
         o.label("skipped:too-large");
         return o;
     }
@@ -756,6 +764,18 @@ fn whitebox(t: &mut Tape) -> Outcome {
                     }
                     let round = 1i64 << (*p - 1);
                     for (start, q) in chunks {
+                        let abs: i64 = q.iter().map(|x| (*x as i64).abs()).sum();
+                        if 255 * abs + round > i32::MAX as i64 {
+                            o.fail(format!(
+                                "window at {} ({} taps, precision {}): 255 * sum|q| = {} overflows the i32 accumulator although sum|w| = {:.3} < 4",
+                                start,
+                                q.len(),
+                                p,
+                                255 * abs,
+                                worst
+                            ));
+                            return o;
+                        }
                         let pos: i64 = q.iter().filter(|x| **x > 0).map(|x| *x as i64).sum();
                         let neg: i64 = q.iter().filter(|x| **x < 0).map(|x| *x as i64).sum();
                         let hi = 640 + ((255 * pos + round) >> *p);
@@ -769,6 +789,26 @@ fn whitebox(t: &mut Tape) -> Outcome {
                         }
                     }
                     o.label(format!("whitebox:precision16:{}", p));
+                }
+                if let Some((p, chunks)) = &d2.precision32 {
+                    if *p == 0 || *p > 45 {
+                        o.fail(format!("16-bit precision {} outside 1..=45 although sum|w| = {:.3} < 4", p, worst));
+                        return o;
+                    }
+                    let round = 1i128 << (*p - 1);
+                    for (start, q) in chunks {
+                        let abs: i128 = q.iter().map(|x| (*x as i128).abs()).sum();
+                        if 65535 * abs + round > i64::MAX as i128 {
+                            o.fail(format!(
+                                "window at {} ({} taps, precision {}): 65535 * sum|q| overflows the i64 accumulator although sum|w| = {:.3} < 4",
+                                start,
+                                q.len(),
+                                p,
+                                worst
+                            ));
+                            return o;
+                        }
+                    }
                 }
             }
         }
